@@ -14,7 +14,7 @@ func init() {
 	property("C16",
 		"Static conformance of the line-marker mechanism: (a) transparency — marker lines are produced only by emitLineMarker (one whole line '# <n> \"<file>\"'), every call of it is guarded by shouldEmitLineMarkers(enable, path) = enable && len(path) > 0 on the same path value, the enable flag and the input path flow only into parameters of that role (they are never tested directly), and the raw-block emitter writes the same text in both arms apart from the markers; (b) every marker is followed, as the next write to the same builder, by the rendering of the construct that owns the marker's token (same object, or same index of parallel slices); (c) no position-less token can reach the AST, a marker or an error: no token literal is synthesised without a line number, no token variable is read before it is assigned on some path, an operand's token is the token that is current when the operand's first literal is read (for an auto-var operand: the Token of its command statement), a node's own Token is the token current when its parser was entered, and list item tokens come from the token window; the -lm and -i options reach the emitter fields of their meaning. NOT decided: the line arithmetic of multi-line raw blocks.",
 		[]string{"lexer tokens carry the line they start on (C19.a)", "go/ssa lowering is faithful to the source"},
-		"C16.a", "C16.b", "C16.c", "C19.a", "C19.b", "C14.a", "C17.f", "C16.d")
+		"C16.a", "C16.b", "C16.c", "C19.a", "C19.b", "C14.a", "C17.f", "C16.d", "C06.b")
 
 	register(&Rule{ID: "C16.a", Doc: "marker emission guarded by shouldEmitLineMarkers; flag and path confined to their role", Floor: 18, Run: c16a})
 	register(&Rule{ID: "C16.b", Doc: "each marker's token belongs to the construct rendered by the next write", Floor: 13, Run: c16b})
@@ -194,11 +194,37 @@ func c16a(c *Ctx) {
 				okUse := false
 				switch y := r.(type) {
 				case ssa.CallInstruction:
-					okUse = true
+					// handed on, in its role, to a function that carries the pair (or to the guard /
+					// the marker printer themselves); len(path), a helper that takes the flag
+					// alone, a formatting call are not roles
+					g := callee(y)
+					which := 0
+					if _, isStr := v.Type().Underlying().(*types.Basic); isStr && v.Type().Underlying().(*types.Basic).Kind() == types.String {
+						which = 1
+					}
+					argAt := func(pos int) bool {
+						a := y.Common().Args
+						return pos >= 0 && pos < len(a) && a[pos] == v
+					}
+					switch {
+					case g == should:
+						okUse = argAt(which)
+					case g == emit:
+						okUse = which == 1 && argAt(2)
+					case g != nil:
+						if r, isRole := roles[g]; isRole {
+							okUse = argAt(r[which])
+						}
+					case y.Common().IsInvoke():
+						for rf, r := range roles {
+							if rf.Signature.Recv() != nil && rf.Name() == y.Common().Method.Name() {
+								okUse = okUse || argAt(r[which]-1)
+							}
+						}
+					}
 					if fn == emit {
 						okUse = true
 					}
-					_ = y
 				case *ssa.DebugRef:
 					okUse = true
 				}
